@@ -87,9 +87,75 @@ def sample_case(kind, R, D, n, timeout=400):
     return Case(cid, PROP, cfg, declare, fn, claims, timeout=timeout, replay_scales=(("S_",), [1e-4, 1e-6]))
 
 
+def sample_after_update_case(kind, R, D, n, timeout=400):
+    """the sequence sample -> update(idx, q) -> sample on ONE object: the second call must draw from the UPDATED law
+    (nothing cached by the first call may survive the update)"""
+    cid = f"C19/sample-after-update/{kind}/R{R}D{D}n{n}"
+    cfg = dict(op="sample, update, sample", density=kind, R=R, D=D, num_samples=n)
+
+    def declare(b):
+        (b.spd if kind == "pdf" else b.diag)("S", R, D); b.free("mu", (R, D))
+        (b.spd if kind == "pdf" else b.diag)("S2", 1, D); b.free("mu2", (1, D))
+        b.free("z", (n, R, D))
+
+    def fn(**A):
+        import jax
+        import jax.numpy as jnp
+        factor, measure, pdf, conditional = gt()
+        cls = pdf.GaussianPDF if kind == "pdf" else pdf.GaussianDiagPDF
+        p = cls(Sigma=A["S"], mu=A["mu"])
+        key = jax.random.PRNGKey(0)
+        orig = jax.random.normal
+
+        def stub(k, shape=(), dtype=None, **kw):
+            assert tuple(shape) == tuple(A["z"].shape), (shape, A["z"].shape)
+            return A["z"]
+        try:
+            jax.random.normal = stub
+            first = p.sample(key, n)
+            p.update(jnp.array([R - 1]), cls(Sigma=A["S2"], mu=A["mu2"]))
+            second = p.sample(key, n)
+        finally:
+            jax.random.normal = orig
+        return {"first": first, "second": second, "Sigma_after": p.Sigma, "mu_after": p.mu}
+
+    def claims(I, O, ops):
+        S, mu, z = I["S"].copy(), I["mu"].copy(), I["z"]
+        S[R - 1] = I["S2"][0]; mu[R - 1] = I["mu2"][0]
+        cl = [("update: Sigma of the addressed component replaced", O["Sigma_after"], S), ("update: mu replaced", O["mu_after"], mu)]
+        # x[k, r] - mu_r = L_r z[k, r] with L_r L_r' = Sigma_r (updated): checked through the covariance of the linear map,
+        # (x - mu)(x - mu)' summed against the symbolic z is awkward; use instead the defining relation with the Cholesky factor
+        exp = ops.zeros((n, R, D))
+        for r in range(R):
+            L = _chol(ops, S[r])
+            for k in range(n):
+                for i in range(D):
+                    t = mu[r, i]
+                    for j in range(D):
+                        t = t + L[i, j] * z[k, r, j]
+                    exp[k, r, i] = t
+        cl.append(("second sample = mu_r + chol(Sigma_r) z with the UPDATED mu_r, Sigma_r", O["second"], exp))
+        return cl
+
+    return Case(cid, PROP, cfg, declare, fn, claims, timeout=timeout, replay_scales=(("S_", "S2_"), [1e-4]))
+
+
+def _chol(ops, S):
+    """lower Cholesky factor by the textbook recursion (oracle side)"""
+    D = S.shape[0]
+    L = ops.zeros((D, D))
+    for i in range(D):
+        for j in range(i + 1):
+            t = S[i, j]
+            for k in range(j):
+                t = t - L[i, k] * L[j, k]
+            L[i, j] = ops.sqrt(t) if i == j else t / L[j, j]
+    return L
+
+
 def cases(tier, seed=0):
     out = [sample_case("pdf", 2, 2, 2), sample_case("pdf", 1, 3, 2), sample_case("pdf", 2, 1, 1), sample_case("pdf", 2, 3, 1),
-           sample_case("diagpdf", 2, 2, 2)]
+           sample_case("diagpdf", 2, 2, 2), sample_after_update_case("pdf", 2, 2, 1), sample_after_update_case("diagpdf", 2, 2, 2)]
     if tier == "thorough":
         out += [sample_case("pdf", 3, 3, 3, timeout=1200), sample_case("pdf", 3, 2, 2), sample_case("diagpdf", 3, 3, 2), sample_case("pdf", 1, 1, 3)]
     return out
